@@ -30,11 +30,40 @@ ASSUMPTIONS = ["small systems; loads up to 1000 journey starts per hour",
 BUDGET = {"quick": dict(examples=30, wall_guard_s=600), "thorough": dict(examples=500, wall_guard_s=3000)}
 BIG_TB = 1e7
 TWEAKS = ["none", "none", "base_ram_over", "base_compute_over", "fixed_server", "fixed_server", "fixed_storage",
-          "fixed_storage", "delete_no_base", "short_storage"]
+          "fixed_storage", "delete_no_base", "short_storage", "delete_other_window", "delete_other_window"]
+
+
+def two_window_spec(n, offset_h, dur_w, dur_d, dup):
+    """One storage; a writing job used by pattern A and a deleting job used by pattern B, over windows of the same
+    length n that are ``offset_h`` hours apart (equal, overlapping or disjoint)."""
+    from datetime import datetime, timedelta
+    t0 = datetime(2025, 3, 3, 5)
+    t1 = t0 + timedelta(hours=offset_h)
+    objs = {"st0": {"cls": "Storage", "base_storage_need": [900.0, "TB"], "storage_capacity": [1.0, "TB"]},
+            "srv0": {"cls": "Server", "storage": "st0", "server_type": "autoscaling"},
+            "jobw": {"cls": "Job", "server": "srv0", "data_stored": [2.0, "TB"], "request_duration": dur_w},
+            "jobd": {"cls": "Job", "server": "srv0", "data_stored": [-3.0, "TB"], "request_duration": dur_d},
+            "stepa": {"cls": "UsageJourneyStep", "jobs": ["jobw"] * dup}, "stepb": {"cls": "UsageJourneyStep", "jobs": ["jobd"]},
+            "uja": {"cls": "UsageJourney", "uj_steps": ["stepa"]}, "ujb": {"cls": "UsageJourney", "uj_steps": ["stepb"]},
+            "dev0": {"cls": "Device"}, "cty0": {"cls": "Country", "timezone": "UTC"}, "net0": {"cls": "Network"},
+            "upa": {"cls": "UsagePattern", "usage_journey": "uja", "devices": ["dev0"], "network": "net0",
+                    "country": "cty0", "start": [t0.year, t0.month, t0.day, t0.hour],
+                    "starts": [float(1 + (i * 5) % 7) for i in range(n)]},
+            "upb": {"cls": "UsagePattern", "usage_journey": "ujb", "devices": ["dev0"], "network": "net0",
+                    "country": "cty0", "start": [t1.year, t1.month, t1.day, t1.hour],
+                    "starts": [float(1 + (i * 3) % 5) for i in range(n)]}}
+    return {"objs": objs, "system": ["upa", "upb"], "sharing": "infra_only"}
 
 
 @st.composite
 def cases(draw):
+    if draw(st.floats(0, 1)) < 0.15:
+        spec = two_window_spec(draw(st.integers(1, 30)), draw(st.sampled_from([0, 1, 3, 24, 48, 100])),
+                               draw(st.sampled_from([[1.0, "s"], [1.0, "hour"], [90.0, "min"]])),
+                               draw(st.sampled_from([[1.0, "s"], [1.0, "hour"], [90.0, "min"]])),
+                               draw(st.integers(1, 2)))
+        return {"spec": spec, "id_seed": draw(st.integers(0, 2 ** 20)), "tweak": "two_windows",
+                "pick": draw(st.integers(0, 10 ** 6)), "delta": 0}
     spec = draw(G.specs(fixed=0.0))
     return {"spec": spec, "id_seed": draw(st.integers(0, 2 ** 20)), "tweak": draw(st.sampled_from(TWEAKS)),
             "pick": draw(st.integers(0, 10 ** 6)), "delta": draw(st.sampled_from([-1, 0, 3]))}
@@ -97,6 +126,23 @@ def check(case, ctx):
             cur = e.get("data_stored") or S.default_quantity("Job", "data_stored")
             e["data_stored"] = [-abs(cur[0]) if cur[0] else -50.0, cur[1]]
             spec["objs"][spec["objs"][S.job_server(spec, j)]["storage"]]["base_storage_need"] = [0.0, "TB"]
+    if case["tweak"] == "delete_other_window" and len(comp["ups"]) >= 2:
+        # a usage pattern whose jobs delete data, over another window of exactly the same length as a writing pattern
+        a, b = comp["ups"][0], comp["ups"][1 + pick % (len(comp["ups"]) - 1)]
+        ea, eb = spec["objs"][a], spec["objs"][b]
+        only_b = [j for j in set(S.journey_jobs(spec, eb["usage_journey"])) - set(S.journey_jobs(spec, ea["usage_journey"]))
+                  if spec["objs"][j]["cls"] == "Job"]
+        if only_b:
+            from datetime import datetime, timedelta
+            t = datetime(*ea["start"]) + timedelta(days=2, hours=pick % 5)
+            eb["start"] = [t.year, t.month, t.day, t.hour]
+            eb["starts"] = [float(1 + (i * 7 + pick) % 23) for i in range(len(ea["starts"]))]
+            eb["country"] = ea["country"]
+            for j in only_b:
+                e = spec["objs"][j]
+                cur = e.get("data_stored") or S.default_quantity("Job", "data_stored")
+                e["data_stored"] = [-abs(cur[0]) if cur[0] else -50.0, cur[1]]
+                spec["objs"][spec["objs"][S.job_server(spec, j)]["storage"]]["base_storage_need"] = [5000.0, "TB"]
     if case["tweak"] == "short_storage" and comp["storages"]:
         stn = comp["storages"][pick % len(comp["storages"])]
         spec["objs"][stn]["data_storage_duration"] = [[1.0, "hour"], [3.0, "hour"], [7.0, "hour"], [90.0, "min"], [2.5, "hour"],
@@ -296,6 +342,16 @@ def check(case, ctx):
                                                           abs(n - round(r)) <= 1):
                 problems.append("%s: %r instances != ceil(%r)" % (stn, n, r))
                 break
+        # active instances: what is written, deleted or expires at that hour over the capacity, capped by what is
+        # provisioned -- each term taken at the SAME timestamp (writing and deleting jobs may cover different windows)
+        exp_act = {}
+        for k in set(ref["needed"]) | set(ref["freed"]) | set(ref["dumps"]):
+            moved = max(abs(ref["needed"].get(k, 0.0)), abs(ref["freed"].get(k, 0.0))) + abs(ref["dumps"].get(k, 0.0))
+            exp_act[k] = min(moved / cap, nb.get(k, 0.0))
+        why = F.maps_close(act, exp_act, rtol=1e-9, atol=1e-12)
+        if why and not isinstance(objs[stn].nb_of_active_instances, type(None)):
+            problems.append("%s.nb_of_active_instances is not (max(|written|, |deleted|) + |expired|) / capacity taken "
+                            "hour by hour: %s" % (stn, why))
         for k, a in act.items():
             if a < -1e-12 or a > nb.get(k, 0.0) + 1e-9 * max(1.0, a):
                 problems.append("%s: %r active instances with %r provisioned" % (stn, a, nb.get(k, 0.0)))
